@@ -1,4 +1,4 @@
-/* C20: Matrix4<T> (identity constructor, transposition, transpose, M*v, A*B), T = int64_t.
+/* C20: Matrix4<T> (identity constructor, transposition, transpose, M*v); T = int64_t, for M*v T = uint64_t.
  * All function text is x_vec.inc, extracted from src/Vector-inl.hh on this run; loop contracts are injected there. */
 #include "contracts/C20_vec.h"
 int verif_exc;
@@ -6,16 +6,16 @@ int verif_exc;
 
 #define IN_XY size_t in_x, in_y; g_x = in_x; g_y = in_y
 #define IN_M T in_m[16]; for (int k = 0; k < 16; k++) g_m[k] = in_m[k]
-#define IN_N T in_n[16]; for (int k = 0; k < 16; k++) g_n[k] = in_n[k]
 
 void h_Matrix4_ctor(void) { IN_XY; Matrix4* a; Matrix4_ctor(a); VERIF_REACH(); }
 void h_Matrix4_transposition(void) { IN_XY; IN_M; Matrix4* a; Matrix4_transposition(a); VERIF_REACH(); }
 void h_Matrix4_transpose(void) { IN_XY; IN_M; T in_val; g_val = in_val; Matrix4* a; Matrix4_transpose(a); VERIF_REACH(); }
+#if !T_SIGNED
 void h_Matrix4_mulv(void) {
   IN_M; T in_o[4]; g_o[0] = in_o[0]; g_o[1] = in_o[1]; g_o[2] = in_o[2]; g_o[3] = in_o[3];
   Matrix4* a; Vector4* v; Matrix4_mulv(a, v); VERIF_REACH();
 }
-void h_Matrix4_mulm(void) { IN_XY; IN_M; IN_N; Matrix4* a; Matrix4* b; Matrix4_mulm(a, b); VERIF_REACH(); }
+#endif
 
 /* lemma over the contract of transposition(): transposing twice gives the original matrix, element (i,j) arbitrary.
  * The ghost index is (i,j) for the first call and (j,i) for the second. */
